@@ -250,7 +250,8 @@ class LazyFile(LazyCall):
 
     def as_dataset(self, batch=65000):
         if batch in self.cached_batch:
-            return self.cached_batch[batch]
+            self.batch_size = batch
+            return self
 
         def gen():
             for i in data_split(self.x, batch_size=batch):
